@@ -2107,10 +2107,14 @@ impl<'a> World<'a> {
             // a further connection of an already instantiated dynamic neighbour: it is that neighbour
             self.rep
                 .count("setup:second-connection-of-dynamic-neighbour");
+            // which group that was is only known as a best guess (overlapping prefixes): the
+            // recorded one (its prefix may be gone meanwhile) or any group that contains the address
+            let containing: BTreeSet<usize> = self.containing(&addr).into_iter().map(|(gi, _)| gi).collect();
             self.groups
                 .iter()
-                .filter(|g| g.name == gname)
-                .map(|g| expectation(&self.confed, None, Some(g), &addr))
+                .enumerate()
+                .filter(|(gi, g)| g.name == gname || containing.contains(gi))
+                .map(|(_, g)| expectation(&self.confed, None, Some(g), &addr))
                 .collect()
         } else {
             let mut seen = BTreeSet::new();
